@@ -241,6 +241,7 @@ func runC05(c *Ctx) {
 	}
 	hbuf := hdec.Common().Args[len(hdec.Common().Args)-1]
 	// the decode step may sit in a helper that is handed the bytes: the header buffer is then the caller's
+	hdecChain := []ssa.CallInstruction{hdec} // innermost first
 	for d := 0; d < 2; d++ {
 		here := false
 		for _, s := range sites {
@@ -258,6 +259,7 @@ func runC05(c *Ctx) {
 		}
 		hbuf = cs.Common().Args[paramIndex(bp.Parent(), bp)]
 		hdec = cs
+		hdecChain = append(hdecChain, cs)
 	}
 	var headerSites, bodySites []readSite
 	for _, s := range sites {
@@ -288,7 +290,38 @@ func runC05(c *Ctx) {
 			}
 			return false
 		}
-		if p := flow.PathAvoiding(hdec.Parent(), nil, func(in ssa.Instruction) bool { return in == ssa.Instruction(hdec) }, isHS); p != nil {
+		// read and decode may both sit in one helper handed the buffer: they are then ordered inside it — look at
+		// the outermost level at which the read and the decode are different instructions
+		ordFn, ordDec := hdec.Parent(), ssa.Instruction(hdec)
+		ordHS := isHS
+		for k := len(hdecChain) - 1; k >= 0; k-- {
+			fk := hdecChain[k].Parent()
+			var at []ssa.Instruction
+			same := false
+			for _, s := range headerSites {
+				for _, x := range append(append([]ssa.CallInstruction{}, s.inner...), s.call) {
+					if x.Parent() == fk {
+						at = append(at, x)
+						if x == hdecChain[k] {
+							same = true
+						}
+					}
+				}
+			}
+			if !same && len(at) > 0 {
+				ordFn, ordDec = fk, hdecChain[k]
+				ordHS = func(in ssa.Instruction) bool {
+					for _, x := range at {
+						if x == in {
+							return true
+						}
+					}
+					return false
+				}
+				break
+			}
+		}
+		if p := flow.PathAvoiding(ordFn, nil, func(in ssa.Instruction) bool { return in == ordDec }, ordHS); p != nil {
 			r.Fail("R2", fname(hdec.Parent())+":header-read-before-decode", c.pos(hdec), "a path reaches the header decode without a full header read", c.witness(p)...)
 		} else {
 			r.Ok("R2", fname(hdec.Parent())+":header-read-before-decode", c.pos(hdec), "every path to the header decode passes a full header read")
@@ -309,6 +342,39 @@ func runC05(c *Ctx) {
 		}
 		if !isMsgLenMinusHeader(l) && isMsgLenMinusHeader(c.up(l)) {
 			l = c.up(l)
+		}
+		// the length handed out by a helper of the header, (n, ok): every return that reports ok carries
+		// MessageLength − HeaderLength (the not-ok return is the length guard's business, R4)
+		if ex, isEx := flow.Peel(l).(*ssa.Extract); isEx && !isMsgLenMinusHeader(l) {
+			if hc, isCall := ex.Tuple.(*ssa.Call); isCall {
+				if h := flow.StaticCallee(hc); h != nil && h.Blocks != nil && c.P.IsLibrary(h) && len(flow.Loops(h)) == 0 {
+					var good ssa.Value
+					okAll := true
+					flow.Instrs(h, func(in ssa.Instruction) {
+						ret, isRet := in.(*ssa.Return)
+						if !isRet || ret.Block() == h.Recover || len(ret.Results) <= ex.Index {
+							return
+						}
+						declined := false
+						for i, rv := range ret.Results {
+							if k, isK := rv.(*ssa.Const); isK && i != ex.Index && k.Value != nil && k.Value.String() == "false" {
+								declined = true
+							}
+						}
+						if declined {
+							return
+						}
+						if isMsgLenMinusHeader(ret.Results[ex.Index]) {
+							good = ret.Results[ex.Index]
+						} else {
+							okAll = false
+						}
+					})
+					if okAll && good != nil {
+						l = good
+					}
+				}
+			}
 		}
 		if !isMsgLenMinusHeader(l) {
 			r.Fail("R3", key, c.pos(s.call), fmt.Sprintf("the number of body bytes read (%s) is not MessageLength − HeaderLength of the decoded header", short(l.String(), 50)))
